@@ -185,6 +185,8 @@ class Closure(object):
             col = []
             self.check_type(girx.type_of(a), a, col)
             self.counts['alias'] += 1
+            # the target of an alias is written as one flat <type>: a container there has no element type by construction
+            col = [c for c in col if c[0] not in ('list-without-element-type', 'array-without-element-type', 'map-without-element-types')]
             if self.introspectable(a):
                 for key, node, what in col:
                     self.problem(key, node, what)
